@@ -6,6 +6,7 @@ import PestModel.Model.ViewsDriver
 import PestModel.Model.GrammarDriver
 import PestModel.Model.UnicodeDriver
 import PestModel.Model.ReaderDriver
+import PestModel.Model.DebuggerDriver
 
 open PestModel
 
@@ -27,4 +28,5 @@ def main (args : List String) : IO UInt32 := do
   | ["grammar"] => loop stdin stdout GrammarDriver.runLine; return 0
   | ["unicode"] => loop stdin stdout UnicodeDriver.runLine; return 0
   | ["read"] => loop stdin stdout ReaderDriver.runLine; return 0
+  | ["dbg"] => loop stdin stdout DbgDriver.runLine; return 0
   | _ => IO.eprintln "usage: pestmodel <mode>"; return 2
